@@ -48,6 +48,7 @@ def main():
     ap.add_argument("--tier", default="quick")
     ap.add_argument("--mir", default=None, help="use an existing MIR dump (debugging)")
     ap.add_argument("--only", default=None)
+    ap.add_argument("--specs", default=None, help="comma separated spec names chosen by the driver (harness/catalog.json)")
     ap.add_argument("--target-dir", default=os.path.join(os.path.dirname(HERE), "build", "mir"))
     a = ap.parse_args()
     t0 = time.time()
@@ -60,10 +61,14 @@ def main():
     for spec in specs.ALL:
         if a.only and spec.name != a.only:
             continue
-        if not a.only and a.prop not in spec.properties:
-            continue
-        if a.tier == "quick" and spec.tier != "quick":
-            continue
+        if a.specs is not None:
+            if spec.name not in a.specs.split(","):
+                continue
+        elif not a.only:
+            if a.prop not in spec.properties:
+                continue
+            if a.tier == "quick" and spec.tier != "quick":
+                continue
         r = specs.run_spec(spec, ctx)
         results.append(r)
         print("  mirsym %-28s %-12s %5.1fs paths=%d queries=%d %s" % (
